@@ -5,7 +5,7 @@ CONSTANTS
   KF_FlagsSurviveTls = FALSE
   KF_BufferSurvivesTls = FALSE
   KF_BareArg421 = FALSE
-  KF_PlainAuthNoTls = FALSE
+  KF_PlainAuthNoTls = TRUE
 INVARIANT C07_Order
 INVARIANT C07_NoCallbackOnError
 INVARIANT C07_Reset
